@@ -272,9 +272,14 @@ func errClass(err error) string {
 
 // recoverClass turns a recovered panic into a result class.
 func panicClass(r interface{}) string {
+	// the class is the message up to its first argument: panic texts may list members in map
+	// order ("inconsistent map element types (A then B)"), which is documented text, not a result
 	s := fmt.Sprint(r)
-	if len(s) > 60 {
-		s = s[:60]
+	for i, ch := range s {
+		if ch == '(' || ch == ':' || ch == '"' || ch == '%' || i >= 40 {
+			s = s[:i]
+			break
+		}
 	}
-	return "panic:" + s
+	return "panic:" + strings.TrimSpace(s)
 }
